@@ -114,13 +114,12 @@ func recoverParams(c []P, vs []P) []float64 {
 		try(newton(prev))
 		// 2. scan for the first local minimum of the distance after prev (log-spaced near prev, then uniform)
 		var grid []float64
-		for k := 40; k >= 1; k-- {
-			grid = append(grid, prev+(1-prev)*math.Ldexp(1, -k)/4)
+		h := (1 - prev) / M
+		for k := 40; k >= 1; k-- { // log-spaced inside the first uniform cell
+			grid = append(grid, prev+h*math.Ldexp(1, -k))
 		}
 		for j := 1; j <= M; j++ {
-			if t := prev + (1-prev)*float64(j)/M; t > grid[len(grid)-1] {
-				grid = append(grid, t)
-			}
+			grid = append(grid, prev+h*float64(j))
 		}
 		grid = append([]float64{prev}, grid...)
 		for j := 1; j+1 < len(grid) && !found; j++ {
